@@ -219,8 +219,11 @@ type udpConnection struct {
 	metrics      *router.InterfaceMetrics
 	receiverDone chan struct{}
 	senderDone   chan struct{}
-	running      atomic.Bool
-	connected    bool // If true, the underlying UDP socket is connected
+	// stopped is closed by stop() to unblock the sender. The queue itself is never closed: links
+	// (processors, BFD sessions) may still try to send while the connection is being stopped.
+	stopped   chan struct{}
+	running   atomic.Bool
+	connected bool // If true, the underlying UDP socket is connected
 }
 
 // start puts the connection in the running state. In that state, the connection can deliver
@@ -254,8 +257,8 @@ func (u *udpConnection) stop() {
 	wasRunning := u.running.Swap(false)
 
 	if wasRunning {
-		u.conn.Close() // Unblock receiver
-		close(u.queue) // Unblock sender
+		u.conn.Close()   // Unblock receiver
+		close(u.stopped) // Unblock sender
 		<-u.receiverDone
 		<-u.senderDone
 	}
@@ -323,15 +326,22 @@ func (u *udpConnection) receive(batchSize int, pool router.PacketPool) {
 	}
 }
 
-func readUpTo(queue <-chan *router.Packet, n int, needsBlocking bool, pkts []*router.Packet) int {
+func readUpTo(
+	queue <-chan *router.Packet, stopped <-chan struct{}, n int, needsBlocking bool,
+	pkts []*router.Packet,
+) int {
 	i := 0
 	if needsBlocking {
-		p, ok := <-queue
-		if !ok {
+		select {
+		case p, ok := <-queue:
+			if !ok {
+				return i
+			}
+			pkts[i] = p
+			i++
+		case <-stopped:
 			return i
 		}
-		pkts[i] = p
-		i++
 	}
 
 	for ; i < n; i++ {
@@ -368,7 +378,7 @@ func (u *udpConnection) send(batchSize int, pool router.PacketPool) {
 
 	for u.running.Load() {
 		// Top-up our batch.
-		toWrite += readUpTo(queue, batchSize-toWrite, toWrite == 0, pkts[toWrite:])
+		toWrite += readUpTo(queue, u.stopped, batchSize-toWrite, toWrite == 0, pkts[toWrite:])
 
 		// Turn the packets into underlay messages that WriteBatch can send.
 		for i, p := range pkts[:toWrite] {
@@ -502,6 +512,7 @@ func (u *provider) newConnectedLink(
 		metrics:      metrics, // send() needs them :-(
 		receiverDone: make(chan struct{}),
 		senderDone:   make(chan struct{}),
+		stopped:      make(chan struct{}),
 		connected:    true,
 	}
 	u.allConnections = append(u.allConnections, c)
@@ -832,6 +843,7 @@ func (u *provider) NewInternalLink(
 		metrics:      metrics, // send() needs them :-(
 		receiverDone: make(chan struct{}),
 		senderDone:   make(chan struct{}),
+		stopped:      make(chan struct{}),
 		connected:    false, // Might be exclusive to internal links, but still not connected.
 	}
 
